@@ -292,7 +292,7 @@ class Gen:
         if can_slot and not deep:
             kinds.append(("slot", 6))
         if owner is not None:
-            kinds.append(("filled", 1))
+            kinds.append(("filled", P.get("filled_weight", 1)))
         if self.on("faults"):
             kinds.append(("fault", 1))
         if scope["aliases"]:
